@@ -5,6 +5,12 @@
  * features: comma list out of  listen,add,susp,auth,cb,post,opt,abort  (default: all), plus
  *           quiet = the clients finish and disconnect before MHD_stop_daemon() is called, so that only
  *           the inter-thread channel can wake the polling threads (a missing signal => watchdog)
+ *           fd = one MHD_create_response_from_fd() object shared by all connections
+ *           ips = client connections come from several 127.x.y.z addresses (per-IP accounting tree churn)
+ *           stagger = (alone, thread-per-connection only) deterministic scenario instead of the load phase:
+ *           3 connections whose handlers are blocked, MHD_stop_daemon(), the handlers are released at
+ *           staggered times in each of the 6 orders (x 2 list layouts: with / without idle connections in
+ *           between); every run must return, without library panic, with one closed notification each
  *
  * Real library objects, a daemon with an internal polling thread (or a worker pool,
  * or thread-per-connection), M client threads talking real HTTP over
@@ -41,6 +47,8 @@
 #include <netinet/in.h>
 #include <arpa/inet.h>
 #include <microhttpd.h>
+#include <gnutls/gnutls.h>
+#include <gnutls/crypto.h>
 
 #define REALM "c18"
 #define MAXCONN 400000
@@ -51,9 +59,19 @@ static struct MHD_Daemon *d;
 static struct MHD_Response *resp_static;
 static struct MHD_Response *resp_cb;
 static struct MHD_Response *resp_post;
+static struct MHD_Response *resp_fd;
+#define FD_SIZE 70000
 static uint16_t port;
 
-static int f_listen = 1, f_add = 1, f_susp = 1, f_auth = 1, f_cb = 1, f_post = 1, f_opt = 1, f_abort = 1, f_quiet = 0;
+static int f_listen = 1, f_add = 1, f_susp = 1, f_auth = 1, f_cb = 1, f_post = 1, f_opt = 1, f_abort = 1, f_quiet = 0,
+           f_fd = 0, f_ips = 0;
+static const char *g_mode = "?";
+/* scenario "stagger" */
+#define SG_MAX 8
+static int sg_release[SG_MAX], sg_entered[SG_MAX];
+static int sg_in_stop, sg_all_done;
+static uint64_t sg_stop_t0;
+static char sg_label[64] = "-";
 
 /* harness state: atomics only, so that TSan reports concern the library */
 static int stopping;        /* no new suspends */
@@ -69,7 +87,8 @@ static pthread_mutex_t q_lock = PTHREAD_MUTEX_INITIALIZER;
 
 static long n_req_ok, n_req_fail, n_conn_add, n_conn_tcp, n_add_fail, n_susp, n_resume, n_auth_chk, n_auth_req,
             n_cb_blocks, n_post, n_opt, n_abort, n_handler, n_completed, n_started_cb, n_closed_cb, n_double_close,
-            n_double_complete, n_body_mismatch, n_late_add;
+            n_double_complete, n_body_mismatch, n_late_add, n_fd, n_auth_ok_sent, n_ip_bind_fail;
+static int ip_seen[4096];
 static long auth_res[32];
 
 /* deterministic scenarios run before the load phase */
@@ -190,6 +209,7 @@ static enum MHD_Result handler (void *cls, struct MHD_Connection *c, const char 
     r = (struct rq *) calloc (1, sizeof (*r));
     if (NULL == r) return MHD_NO;
     r->kind = url[1];
+    if ('b' == r->kind) r->phase = (url[2] >= '0' && url[2] < '0' + SG_MAX) ? url[2] - '0' : 0;
     *con_cls = r;
     INC (n_handler);
     return MHD_YES;
@@ -219,6 +239,14 @@ static enum MHD_Result handler (void *cls, struct MHD_Connection *c, const char 
     return MHD_queue_response (c, MHD_HTTP_OK, resp_static);
   case 'c':
     return MHD_queue_response (c, MHD_HTTP_OK, resp_cb);
+  case 'f':
+    INC (n_fd);
+    return MHD_queue_response (c, MHD_HTTP_OK, (NULL != resp_fd) ? resp_fd : resp_static);
+  case 'b':
+    /* busy handler: stays in the application until the scenario releases it */
+    ST (sg_entered[r->phase], 1);
+    while (! LD (sg_release[r->phase])) usleep (300);
+    return MHD_queue_response (c, MHD_HTTP_OK, resp_static);
   case 'a':
   {
     enum MHD_DigestAuthResult res;
@@ -336,7 +364,23 @@ static int read_response (int fd, char *nonce, size_t nonce_sz, long *body_len, 
   return code;
 }
 
-static unsigned expect_sum_static, expect_sum_cb;
+static unsigned expect_sum_static, expect_sum_cb, expect_sum_fd;
+
+static void md5hex (const char *str, char out[33])
+{
+  unsigned char dg[16];
+  int i;
+  if (0 != gnutls_hash_fast (GNUTLS_DIG_MD5, str, strlen (str), dg)) memset (dg, 0, sizeof (dg));
+  for (i = 0; i < 16; i++) snprintf (out + 2 * i, 3, "%02x", dg[i]);
+}
+
+
+static uint32_t pick_ip (struct cl *me)
+{
+  unsigned b = 1u + (unsigned) (me->id % 4), c = 1u + (rand_r (&me->seed) % 8u);
+  ST (ip_seen[(b << 4) | c], 1);
+  return 0x7f000000u | (b << 8) | c;       /* 127.0.b.c */
+}
 
 static int open_conn (struct cl *me)
 {
@@ -347,6 +391,12 @@ static int open_conn (struct cl *me)
     struct sockaddr_in sa;
     int fd = socket (AF_INET, SOCK_STREAM, 0);
     if (fd < 0) return -1;
+    if (f_ips)
+    {
+      memset (&sa, 0, sizeof (sa));
+      sa.sin_family = AF_INET; sa.sin_port = 0; sa.sin_addr.s_addr = htonl (pick_ip (me));
+      if (0 != bind (fd, (struct sockaddr *) &sa, sizeof (sa))) INC (n_ip_bind_fail);
+    }
     memset (&sa, 0, sizeof (sa));
     sa.sin_family = AF_INET; sa.sin_port = htons (port); sa.sin_addr.s_addr = htonl (INADDR_LOOPBACK);
     if (0 != connect (fd, (struct sockaddr *) &sa, sizeof (sa))) { close (fd); return -1; }
@@ -360,7 +410,7 @@ static int open_conn (struct cl *me)
     enum MHD_Result ok = MHD_NO;
     if (0 != socketpair (AF_UNIX, SOCK_STREAM, 0, sv)) return -1;
     memset (&sa, 0, sizeof (sa));
-    sa.sin_family = AF_INET; sa.sin_port = htons ((uint16_t) (1024 + me->id)); sa.sin_addr.s_addr = htonl (0x7f000001u + (unsigned) (me->id % 3));
+    sa.sin_family = AF_INET; sa.sin_port = htons ((uint16_t) (1024 + me->id)); sa.sin_addr.s_addr = htonl (f_ips ? pick_ip (me) : 0x7f000001u + (unsigned) (me->id % 3));
     pthread_rwlock_rdlock (&add_lock);
     if (! LD (no_add))
       ok = MHD_add_connection (d, sv[0], (struct sockaddr *) &sa, sizeof (sa));   /* closes sv[0] on failure */
@@ -385,7 +435,7 @@ static void *client_main (void *arg)
     nreq = 1 + (int) (rand_r (&me->seed) % 5);
     for (k = 0; k < nreq && ! LD (clients_quit); k++)
     {
-      static const char kinds[] = "ssucapo";
+      static const char kinds[] = "ssucapof";
       char kind = kinds[rand_r (&me->seed) % (sizeof (kinds) - 1)];
       long blen = 0; unsigned bsum = 0; int code;
       if ('u' == kind && ! f_susp) kind = 's';
@@ -393,6 +443,7 @@ static void *client_main (void *arg)
       if ('a' == kind && ! f_auth) kind = 's';
       if ('p' == kind && ! f_post) kind = 's';
       if ('o' == kind && ! f_opt) kind = 's';
+      if ('f' == kind && ! f_fd) kind = 's';
       if ('p' == kind)
       {
         int bl = (int) (rand_r (&me->seed) % 300);
@@ -414,11 +465,24 @@ static void *client_main (void *arg)
         int tries;
         for (tries = 0; tries < 2 && 401 == code && 0 != nonce[0]; tries++)
         {
-          int hl = snprintf (req, sizeof (req),
+          unsigned ncv = (unsigned) (1 + tries + (rand_r (&me->seed) % 3)), cn = rand_r (&me->seed);
+          char rsp[33] = "00000000000000000000000000000000";
+          int hl;
+          if (0 != (rand_r (&me->seed) & 1))
+          {
+            /* the right answer: the check goes all the way (nonce-counter bookkeeping, then MHD_DAUTH_OK) */
+            char ha1[33], ha2[33], tmp[512];
+            md5hex ("user:" REALM ":pass", ha1);
+            md5hex ("GET:/a", ha2);
+            snprintf (tmp, sizeof (tmp), "%s:%s:%08x:c%u:auth:%s", ha1, nonce, ncv, cn, ha2);
+            md5hex (tmp, rsp);
+            INC (n_auth_ok_sent);
+          }
+          hl = snprintf (req, sizeof (req),
                              "GET /a HTTP/1.1\r\nHost: h\r\nAuthorization: Digest username=\"user\", realm=\"" REALM "\", "
                              "nonce=\"%s\", uri=\"/a\", qop=auth, nc=%08x, cnonce=\"c%u\", algorithm=MD5, "
-                             "response=\"00000000000000000000000000000000\", opaque=\"opq\"\r\n\r\n",
-                             nonce, (unsigned) (1 + tries + (rand_r (&me->seed) % 3)), rand_r (&me->seed));
+                             "response=\"%s\", opaque=\"opq\"\r\n\r\n",
+                             nonce, ncv, cn, rsp);
           if (0 != send_all (fd, req, (size_t) hl)) { code = -1; break; }
           code = read_response (fd, nonce, sizeof (nonce), &blen, &bsum);
         }
@@ -426,7 +490,7 @@ static void *client_main (void *arg)
       }
       else if (200 == code)
       {
-        unsigned want = ('c' == kind) ? expect_sum_cb : (('p' == kind) ? 0u : expect_sum_static);
+        unsigned want = ('c' == kind) ? expect_sum_cb : (('p' == kind) ? 0u : (('f' == kind) ? expect_sum_fd : expect_sum_static));
         if ('p' != kind && bsum != want) INC (n_body_mismatch);
       }
       INC (n_req_ok);
@@ -575,6 +639,144 @@ static void scenario_quietresume (void)
   close (fd);
 }
 
+/* ------------------------------------------------------------ library panic */
+static void panic_cb (void *cls, const char *file, unsigned int line, const char *reason)
+{
+  char r[96];
+  size_t i;
+  (void) cls; (void) file;
+  snprintf (r, sizeof (r), "%s", (NULL != reason) ? reason : "?");
+  for (i = 0; r[i]; i++) if (' ' == r[i] || '\n' == r[i]) r[i] = '_';
+  printf ("result panic=1 mode=%s panic_line=%u panic_reason=%s stagger=%s stop_begin=%d conn_started=%ld conn_closed=%ld\n",
+          g_mode, line, r, sg_label, LD (stop_begin) | LD (sg_in_stop), n_started_cb, n_closed_cb);
+  fflush (stdout);
+  fprintf (stderr, "MHD PANIC line %u: %s (scenario %s)\n", line, (NULL != reason) ? reason : "?", sg_label);
+  _exit (5);
+}
+
+/* ------------------------------------------- scenario: staggered thread exits during the stop */
+struct sg_rel { int order[3]; int gap_ms; };
+
+static void *sg_releaser_main (void *arg)
+{
+  struct sg_rel *r = (struct sg_rel *) arg;
+  int j;
+  while (! LD (sg_in_stop)) usleep (200);
+  for (j = 0; j < 3; j++)
+  {
+    usleep ((useconds_t) r->gap_ms * 1000u);
+    ST (sg_release[r->order[j]], 1);
+  }
+  return NULL;
+}
+
+static void *sg_watchdog_main (void *arg)
+{
+  long limit = (long) (intptr_t) arg;
+  while (! LD (sg_all_done))
+  {
+    if (LD (sg_in_stop) && (long) (now_ms () - LD (sg_stop_t0)) > limit)
+    {
+      printf ("result watchdog=1 mode=%s stagger=%s stop_ms=%ld\n", g_mode, sg_label, (long) (now_ms () - LD (sg_stop_t0)));
+      fflush (stdout);
+      fprintf (stderr, "WATCHDOG: MHD_stop_daemon() did not return within %ld ms (scenario %s)\n", limit, sg_label);
+      _exit (3);
+    }
+    usleep (5000);
+  }
+  return NULL;
+}
+
+/* one daemon, `nconn` connections added in list order (the first one ends up at the tail of the
+ * connections DLL, where close_all_connections() starts its walk); the connections at busy[0..2] run a
+ * handler that blocks until released, the others are idle.  Returns the stop time in ms, -1 = failed. */
+static long stagger_one (unsigned int flags, struct MHD_OptionItem *ops, int nconn, const int busy[3],
+                         const int order[3], int gap_ms, long *closed_ok)
+{
+  int fds[SG_MAX], i, k, bad = 0;
+  long s0, s1, h0, c0;
+  pthread_t rt;
+  struct sg_rel rel;
+  uint64_t t0;
+  for (k = 0; k < SG_MAX; k++) { ST (sg_release[k], 0); ST (sg_entered[k], 0); }
+  d = MHD_start_daemon (flags, 0, NULL, NULL, &handler, NULL, MHD_OPTION_ARRAY, ops, MHD_OPTION_END);
+  if (NULL == d) return -1;
+  pin_mod = 1;
+  s0 = LD (conn_slots); h0 = LD (n_handler); c0 = LD (n_completed);
+  for (i = 0; i < nconn; i++)
+  {
+    int which = -1;
+    for (k = 0; k < 3; k++) if (busy[k] == i) which = k;
+    fds[i] = add_pair (0);
+    if (fds[i] < 0) { bad = 1; continue; }
+    /* the connection is in the list when MHD_add_connection() returns (thread-per-connection mode) */
+    if (which >= 0)
+    {
+      char req[64];
+      int hl = snprintf (req, sizeof (req), "GET /b%d HTTP/1.1\r\nHost: h\r\n\r\n", which);
+      uint64_t w0 = now_ms ();
+      if (0 != send_all (fds[i], req, (size_t) hl)) bad = 1;
+      while (! LD (sg_entered[which]) && now_ms () - w0 < 3000) usleep (300);
+      if (! LD (sg_entered[which])) bad = 1;
+    }
+  }
+  /* wait until every connection has been announced */
+  t0 = now_ms ();
+  while (LD (conn_slots) - s0 < nconn && now_ms () - t0 < 3000) usleep (300);
+  s1 = LD (conn_slots);
+  if (s1 - s0 != nconn) bad = 1;
+  memcpy (rel.order, order, sizeof (rel.order)); rel.gap_ms = gap_ms;
+  pthread_create (&rt, NULL, &sg_releaser_main, &rel);
+  t0 = now_ms ();
+  ST (sg_stop_t0, t0);
+  ST (sg_in_stop, 1);
+  MHD_stop_daemon (d);
+  ST (sg_in_stop, 0);
+  t0 = now_ms () - t0;
+  for (k = 0; k < SG_MAX; k++) ST (sg_release[k], 1);
+  pthread_join (rt, NULL);
+  for (i = 0; i < nconn; i++) if (fds[i] >= 0) close (fds[i]);
+  for (i = (int) s0; i < (int) s1 && i < MAXCONN; i++)
+  {
+    if (1 == LD (conn_closed[i])) (*closed_ok)++;
+    else bad = 1;
+  }
+  if (LD (n_handler) - h0 != 3 || LD (n_completed) - c0 != 3) bad = 1;
+  return bad ? -1 : (long) t0;
+}
+
+static int run_stagger (unsigned int flags, struct MHD_OptionItem *ops, long wd_ms)
+{
+  static const int perms[6][3] = { {0, 1, 2}, {0, 2, 1}, {1, 0, 2}, {1, 2, 0}, {2, 0, 1}, {2, 1, 0} };
+  static const int lay_n[2] = { 3, 5 };
+  static const int lay_busy[2][3] = { {0, 1, 2}, {0, 2, 4} };
+  int p, l, runs = 0, nbad = 0;
+  long closed_ok = 0, conns = 0, ms_max = 0, ms_min = 1000000;
+  pthread_t wt;
+  pthread_create (&wt, NULL, &sg_watchdog_main, (void *) (intptr_t) wd_ms);
+  for (l = 0; l < 2; l++)
+    for (p = 0; p < 6; p++)
+    {
+      long ms;
+      snprintf (sg_label, sizeof (sg_label), "layout%d/order%d%d%d", l, perms[p][0], perms[p][1], perms[p][2]);
+      ms = stagger_one (flags, ops, lay_n[l], lay_busy[l], perms[p], 70, &closed_ok);
+      runs++; conns += lay_n[l];
+      if (ms < 0) { nbad++; fprintf (stderr, "stagger %s: accounting inconsistent\n", sg_label); continue; }
+      if (ms > ms_max) ms_max = ms;
+      if (ms < ms_min) ms_min = ms;
+    }
+  ST (sg_all_done, 1);
+  pthread_join (wt, NULL);
+  if (0 != n_double_close || 0 != n_double_complete || n_started_cb != n_closed_cb) nbad++;
+  printf ("result mode=%s pool=tpc scenario=stagger stagger_runs=%d stagger_bad=%d stagger_conns=%ld stagger_closed_once=%ld "
+          "stagger_stop_ms_min=%ld stagger_stop_ms_max=%ld handler=%ld completed=%ld conn_started=%ld conn_closed=%ld "
+          "double_close=%ld double_complete=%ld panic=0 bad=%d\n",
+          g_mode, runs, nbad, conns, closed_ok, ms_min, ms_max, n_handler, n_completed, n_started_cb, n_closed_cb,
+          n_double_close, n_double_complete, nbad ? 1 : 0);
+  fflush (stdout);
+  return nbad ? 4 : 0;
+}
+
 static int has (const char *list, const char *w)
 {
   size_t l = strlen (w);
@@ -606,7 +808,9 @@ int main (int argc, char **argv)
   feat = argc > 6 ? argv[6] : "listen,add,susp,auth,cb,post,opt,abort";
   f_listen = has (feat, "listen"); f_add = has (feat, "add"); f_susp = has (feat, "susp"); f_auth = has (feat, "auth");
   f_cb = has (feat, "cb"); f_post = has (feat, "post"); f_opt = has (feat, "opt"); f_abort = has (feat, "abort");
-  f_quiet = has (feat, "quiet");
+  f_quiet = has (feat, "quiet"); f_fd = has (feat, "fd"); f_ips = has (feat, "ips");
+  g_mode = mode;
+  MHD_set_panic_func (&panic_cb, NULL);
   if (nclients < 1) nclients = 1;
   if (nclients > 64) nclients = 64;
   wd_ms = getenv ("H_THR_WATCHDOG_MS") ? atol (getenv ("H_THR_WATCHDOG_MS")) : 10000;
@@ -627,6 +831,25 @@ int main (int argc, char **argv)
   if (NULL == resp_static || NULL == resp_cb || NULL == resp_post) return 2;
   for (i = 0; BODY_STATIC[i]; i++) expect_sum_static += (unsigned char) BODY_STATIC[i];
   for (i = 0; i < CB_SIZE; i++) expect_sum_cb += (unsigned char) ('a' + (i % 23));
+  if (f_fd)
+  {
+    /* one file-backed response object shared by all connections (pread()/sendfile() at per-connection offsets) */
+    char tn[] = "/tmp/h_thr_fdXXXXXX";
+    int tfd = mkstemp (tn);
+    if (tfd >= 0)
+    {
+      char blk[1000];
+      int b;
+      unlink (tn);
+      for (b = 0; b < FD_SIZE / 1000; b++)
+      {
+        for (i = 0; i < 1000; i++) { blk[i] = (char) ('A' + ((b * 7 + i) % 26)); expect_sum_fd += (unsigned char) blk[i]; }
+        if (1000 != write (tfd, blk, 1000)) return 2;
+      }
+      resp_fd = MHD_create_response_from_fd (FD_SIZE, tfd);
+      if (NULL == resp_fd) return 2;
+    }
+  }
 
   memset (&la, 0, sizeof (la));
   la.sin_family = AF_INET; la.sin_port = 0; la.sin_addr.s_addr = htonl (INADDR_LOOPBACK);
@@ -640,6 +863,11 @@ int main (int argc, char **argv)
   if (f_listen) { ops[n].option = MHD_OPTION_SOCK_ADDR; ops[n].value = 0; ops[n++].ptr_value = &la; }
   if (npool > 1) { ops[n].option = MHD_OPTION_THREAD_POOL_SIZE; ops[n].value = npool; ops[n++].ptr_value = NULL; }
   ops[n].option = MHD_OPTION_END; ops[n].value = 0; ops[n++].ptr_value = NULL;
+  if (has (feat, "stagger"))
+  {
+    if (! tpc) { printf ("result skipped=1 reason=stagger-needs-thread-per-connection\n"); return 0; }
+    return run_stagger (flags | MHD_USE_NO_LISTEN_SOCKET, ops, wd_ms);
+  }
   d = MHD_start_daemon (flags, 0, NULL, NULL, &handler, NULL, MHD_OPTION_ARRAY, ops, MHD_OPTION_END);
   if (NULL == d) { printf ("result start_failed=1\n"); return 2; }
   if (f_listen)
@@ -707,9 +935,11 @@ int main (int argc, char **argv)
   MHD_destroy_response (resp_static);
   MHD_destroy_response (resp_cb);
   MHD_destroy_response (resp_post);
+  if (NULL != resp_fd) MHD_destroy_response (resp_fd);
 
   {
-    long s, not_closed = 0, slots = conn_slots < MAXCONN ? conn_slots : MAXCONN;
+    long s, not_closed = 0, slots = conn_slots < MAXCONN ? conn_slots : MAXCONN, ips = 0;
+    for (s = 0; s < 4096; s++) ips += ip_seen[s];
     for (s = 0; s < slots; s++) if (1 != conn_closed[s]) not_closed++;
     if (0 != not_closed || 0 != n_double_close || 0 != n_double_complete || n_handler != n_completed
         || n_started_cb != n_closed_cb || 0 != n_body_mismatch)
@@ -717,11 +947,14 @@ int main (int argc, char **argv)
     printf ("result mode=%s pool=%s clients=%d seed=%u stop_ms=%ld req_ok=%ld req_fail=%ld conn_add=%ld conn_tcp=%ld add_fail=%ld "
             "susp=%ld resume=%ld auth_chk=%ld auth_req=%ld cb_blocks=%ld post=%ld opt=%ld abort=%ld handler=%ld completed=%ld "
             "conn_started=%ld conn_closed=%ld not_closed=%ld double_close=%ld double_complete=%ld body_mismatch=%ld "
-            "pinadd=%d pinadd_ms=%ld quietresume=%d quietresume_ms=%ld bad=%d\n",
+            "pinadd=%d pinadd_ms=%ld quietresume=%d quietresume_ms=%ld fd=%ld auth_ok_sent=%ld auth_ok=%ld auth_stale=%ld "
+            "auth_respwrong=%ld auth_noncewrong=%ld ip_addrs=%ld ip_bind_fail=%ld panic=0 bad=%d\n",
             mode, pool, nclients, seed, (long) (t1 - t0), n_req_ok, n_req_fail, n_conn_add, n_conn_tcp, n_add_fail,
             n_susp, n_resume, n_auth_chk, n_auth_req, n_cb_blocks, n_post, n_opt, n_abort, n_handler, n_completed,
             n_started_cb, n_closed_cb, not_closed, n_double_close, n_double_complete, n_body_mismatch,
-            sc_pinadd, sc_pin_ms, sc_quiet, sc_quiet_ms, bad);
+            sc_pinadd, sc_pin_ms, sc_quiet, sc_quiet_ms, n_fd, n_auth_ok_sent, auth_res[(MHD_DAUTH_OK + 40) % 32],
+            auth_res[(MHD_DAUTH_NONCE_STALE + 40) % 32], auth_res[(MHD_DAUTH_RESPONSE_WRONG + 40) % 32],
+            auth_res[(MHD_DAUTH_NONCE_WRONG + 40) % 32], ips, n_ip_bind_fail, bad);
     fflush (stdout);
   }
   return bad ? 4 : 0;
